@@ -8,6 +8,11 @@ Bounded-exhaustive exploration with an exception-type oracle (the only model nee
   generated      the C07 custom-pattern set (<= k fields, every width, five delimiter styles, embedded patterns)
   builtin        every built-in pattern and every standard single-letter pattern (several cultures)
   templates      era / calendar / year-of-era patterns under every template calendar (with_calendar)
+  names          EVERY culture: every month / day name, am/pm designator and era name containing a non-alphanumeric
+                 character: own text, case variants, and the name with each such character replaced (must fail
+                 cleanly unless the result is another name of the field)
+  composite      all interleavings of construct / add / add / build of two CompositePatternBuilder()s for different
+                 value types: each composite parses / formats only with its own patterns
   metachar       patterns whose literals are format-string metacharacters ({ } {0} %s \\ $1 ..., quoted / escaped / bare):
                  the texts that match them carry those characters into every failure message; every failure's error is
                  requested in full
@@ -613,6 +618,196 @@ def metachar_worker(task):
 
 
 # ---------------------------------------------------------------------------------------------------------------
+# names: every culture-supplied name with a non-alphanumeric character, matched case-insensitively by the parser
+# ---------------------------------------------------------------------------------------------------------------
+
+def _has_special(name):
+    return any(not ch.isalnum() for ch in name)
+
+
+def _name_mutations(name):
+    """The name with each non-alphanumeric character replaced by another character (one at a time)."""
+    out = []
+    for i, ch in enumerate(name):
+        if not ch.isalnum():
+            for rep in ("X", "#"):
+                if rep != ch:
+                    m = name[:i] + rep + name[i + 1:]
+                    if m not in out:
+                        out.append(m)
+    return out
+
+
+def names_worker(cnames):
+    import pyoda_time as pt
+    acc = Acc()
+    for cname in cnames:
+        P = c07.props(cname)
+        jobs = []      # (kind, pattern text, [(text prefix, name, text suffix)], candidate names)
+        # months: the date 2001-<m>-15 formats the m-th name; 'MMMM'/'MMM' alone is non-genitive, with 'd' genitive
+        for width, tok in ((4, "MMMM"), (3, "MMM")):
+            for genitive, ptext in ((False, "%s'~'yyyy" % tok), (True, "%s'~'d" % tok)):
+                names = P.months[(width, genitive)]
+                cands = [n for k in ((width, False), (width, True)) for n in P.months[k] if n]
+                items = [("", names[m], "~2001" if not genitive else "~15") for m in range(1, 13) if m < len(names) and names[m] and _has_special(names[m])]
+                if items:
+                    jobs.append(("date", ptext, items, cands))
+        for width, tok in ((4, "dddd"), (3, "ddd")):
+            names = P.days[width]
+            cands = [n for n in names if n]
+            # 2001-01-01 was a Monday (ISO day 1)
+            items = [("", names[d], "~%d~1~2001" % d) for d in range(1, 8) if d < len(names) and names[d] and _has_special(names[d])]
+            if items:
+                jobs.append(("date", "%s'~'d'~'M'~'yyyy" % tok, items, cands))
+        items = [("%d~" % h, n, "") for h, n in ((3, P.am), (3, P.pm)) if n and _has_special(n)]
+        if items and P.am and P.pm:
+            jobs.append(("time", "h'~'tt", items, [P.am, P.pm]))
+        for ident, year in (("common/main", 2001), ("common/before", 2001)):
+            if ident in P.eras:
+                primary, names = P.eras[ident]
+                allnames = [n for e in ("common/main", "common/before") for n in P.eras.get(e, ("", []))[1] if n]
+                items = [("2001~", n, "") for n in names if n and _has_special(n)]
+                if items:
+                    jobs.append(("date", "yyyy'~'gg", items, allnames))
+        for kind, ptext, items, cands in jobs:
+            pat = try_create(acc, kind, ptext, cname)
+            if pat is None:
+                continue
+            acc.count(states=1)
+            info = {"kind": kind, "pattern": ptext, "culture": cname}
+            for pre, name, suf in items:
+                text = pre + name + suf
+                check_parse(acc, kind, pat, text, info, False)
+                for variant in (name.upper(), name.lower()):
+                    check_parse(acc, kind, pat, pre + variant + suf, info, False)
+                for mut in _name_mutations(name):
+                    mtext = pre + mut + suf
+                    acc.count(transitions=1, evaluations=1)
+                    try:
+                        r = pat.parse(mtext)
+                        ok = r.success
+                    except Exception as e:  # noqa: BLE001
+                        if exc_origin(e) == "harness":
+                            raise
+                        acc.violation("C08/%s/parse-raises/%s/%s" % (kind, type(e).__name__, text_site(e)),
+                                      "%s pattern %r (%s) parse(%s) raised %s: %s" % (kind, ptext, cname or "invariant", show(mtext), type(e).__name__, str(e)[:160]),
+                                      dict(info, text=mtext))
+                        continue
+                    if ok and not any(T._same_ci(mut, c) or (len(c) < len(mut) and False) for c in cands):
+                        acc.violation("C08/%s/accepts-a-text-that-is-not-a-name/%s" % (kind, ptext),
+                                      "%s pattern %r (%s): %s is parsed successfully although the name is %s (changed character %r)" % (
+                                          kind, ptext, cname or "invariant", show(mtext), show(name), [a for a, b in zip(name, mut) if a != b][:1]),
+                                      dict(info, text=mtext, name=name))
+                    else:
+                        acc.outcome("mutated name rejected" if not ok else "mutated name equals another name")
+    return acc
+
+
+# ---------------------------------------------------------------------------------------------------------------
+# composite pattern builders: constructions / add() / build() of several builders interleaved in every order
+# ---------------------------------------------------------------------------------------------------------------
+
+def _composite_specs():
+    import pyoda_time as pt
+    from pyoda_time.text import DurationPattern, LocalTimePattern, OffsetPattern
+    mk = lambda cls, t: cls.create_with_invariant_culture(t)     # noqa: E731
+    return {
+        "offset": ([mk(OffsetPattern, "+HH:mm"), mk(OffsetPattern, "+HH")], [pt.Offset.from_hours_and_minutes(5, 30), pt.Offset.from_hours(-3)], pt.Offset),
+        "duration": ([mk(DurationPattern, "-H:mm:ss"), mk(DurationPattern, "-D:hh")], [pt.Duration.from_seconds(3723), pt.Duration.from_hours(49)], pt.Duration),
+        "time": ([mk(LocalTimePattern, "HH:mm:ss"), mk(LocalTimePattern, "HH:mm")], [pt.LocalTime(5, 30, 15), pt.LocalTime(23, 59, 0)], pt.LocalTime),
+    }
+
+
+def composite_worker(task):
+    """All interleavings of [construct, add, add, build] of the chosen builders (no-argument constructor)."""
+    import itertools
+    from pyoda_time.text._composite_pattern_builder import CompositePatternBuilder
+    names = task
+    acc = Acc()
+    specs = _composite_specs()
+    all_texts = []
+    for k in specs:
+        pats, vals, _ = specs[k]
+        for p in pats:
+            for v in vals:
+                t = p.format(v)
+                if t not in all_texts:
+                    all_texts.append(t)
+    all_texts += ["", "x", "+05:30", "1:02:03"]
+    steps = ["new", "add0", "add1", "build"]
+    slots = [n for n in names for _ in steps]
+    for order in sorted(set(itertools.permutations(slots))):
+        acc.count(states=1)
+        builders, built, pos = {}, {}, {n: 0 for n in names}
+        try:
+            for n in order:
+                st = steps[pos[n]]
+                pos[n] += 1
+                pats = specs[n][0]
+                if st == "new":
+                    builders[n] = CompositePatternBuilder()
+                elif st == "add0":
+                    builders[n].add(pats[0], lambda v: True)
+                elif st == "add1":
+                    builders[n].add(pats[1], lambda v: True)
+                else:
+                    built[n] = builders[n].build()
+                acc.count(transitions=1)
+        except Exception as e:  # noqa: BLE001
+            if exc_origin(e) == "harness":
+                raise
+            acc.violation("C08/composite/builder-raises-%s/%s" % (type(e).__name__, text_site(e)), "builder sequence %s raised %s: %s" % (order, type(e).__name__, str(e)[:160]),
+                          {"order": list(order)})
+            continue
+        bad = None
+        for n in names:
+            pats, vals, typ = specs[n]
+            comp = built[n]
+            for t in all_texts:
+                acc.count(transitions=1, evaluations=1)
+                want = None
+                for p in pats:
+                    r = p.parse(t)
+                    if r.success:
+                        want = r.value
+                        break
+                try:
+                    r = comp.parse(t)
+                    got = r.value if r.success else None
+                except Exception as e:  # noqa: BLE001
+                    if exc_origin(e) == "harness":
+                        raise
+                    got = "raised " + type(e).__name__
+                if got != want or (got is not None and not isinstance(got, typ)):
+                    bad = (n, "parse(%r)" % t, got, want)
+                    break
+            if bad:
+                break
+            for v in vals:
+                try:
+                    got = comp.format(v)
+                except Exception as e:  # noqa: BLE001
+                    if exc_origin(e) == "harness":
+                        raise
+                    got = "raised " + type(e).__name__
+                want = pats[1].format(v)      # predicates are all true: the last pattern added formats
+                acc.count(transitions=1, evaluations=1)
+                if got != want:
+                    bad = (n, "format(%s)" % c07.short(v), got, want)
+                    break
+            if bad:
+                break
+        if bad:
+            acc.violation("C08/composite/builders-share-state/%s" % "+".join(names),
+                          "builders for %s created with the no-argument constructor in the order %s: the %s composite answers %s with %s, its own patterns give %s" % (
+                              "/".join(names), " ".join(order), bad[0], bad[1], c07.short(bad[2], 60), c07.short(bad[3], 60)), {"order": list(order), "types": list(names)})
+            break
+        acc.count(nontrivial=1)
+    acc.outcome("composite builders independent over all interleavings of %s" % "+".join(names))
+    return acc
+
+
+# ---------------------------------------------------------------------------------------------------------------
 # driver
 # ---------------------------------------------------------------------------------------------------------------
 
@@ -665,6 +860,13 @@ def run(ctx):
             ctx.merge_part("extreme-templates", acc)
         ctx.cap("extreme templates: generated patterns with the quoted delimiter / fixed / composite shapes only; non-ISO calendar templates for LocalDate patterns%s" % (
             " and LocalDateTime (Hebrew Civil, Coptic)" if tier == "thorough" else ""))
+    if not only or "names" in only:
+        allc = c07.all_culture_names()
+        for acc in pmap(names_worker, rot([tuple(allc[i:i + 25]) for i in range(0, len(allc), 25)])):
+            ctx.merge_part("names", acc)
+    if not only or "composite" in only:
+        for acc in pmap(composite_worker, [("offset", "duration"), ("duration", "time"), ("time", "offset"), ("duration", "offset")]):
+            ctx.merge_part("composite", acc)
     if not only or "metachar" in only:
         tasks = []
         for kind in kinds:
